@@ -51,6 +51,14 @@ type Item struct {
 	W *World `graphql:"-"`
 }
 
+// Bag is an unkeyed object passed by value whose Go type is NOT comparable (it
+// holds a slice): the executor cannot use it as a cache key.
+type Bag struct {
+	A    int64    `graphql:"a"`
+	Tags []string `graphql:"tags"`
+	W    *World   `graphql:"-"`
+}
+
 // Thing is a union of Node and Leaf.
 type Thing struct {
 	schemabuilder.Union
@@ -233,6 +241,32 @@ func NodeThings(n *Node, _ NoArgs) []*Thing {
 }
 func NodeItem(n *Node, _ NoArgs) Item {
 	return Item{A: int64(n.W.H("Node", n.Id, "item", 0) % 40), W: n.W}
+}
+
+func NodeBags(n *Node, _ NoArgs) []Bag {
+	h := n.W.H("Node", n.Id, "bags", 0)
+	k := int(h % 4)
+	out := make([]Bag, 0, k)
+	for i := 0; i < k; i++ {
+		hh := n.W.H("Node", n.Id, "bags", int64(i+1))
+		b := Bag{A: int64(hh % 50), W: n.W}
+		for j := 0; j < int(hh>>8%3); j++ {
+			b.Tags = append(b.Tags, fmt.Sprintf("g%d", (hh>>(12+4*uint(j)))%6))
+		}
+		out = append(out, b)
+	}
+	return out
+}
+
+// ---- Bag fields ----
+
+func BagTotal(b *Bag, _ NoArgs) int64 { return b.A*3 + int64(len(b.Tags)) + int64(b.W.H("Bag", b.A, "total", 0)%5) }
+func BagNode(b *Bag, _ NoArgs) *Node {
+	h := b.W.H("Bag", b.A, "node", int64(len(b.Tags)))
+	if h%3 == 0 {
+		return nil
+	}
+	return b.W.pickNode(h >> 8)
 }
 
 // ---- Leaf fields ----
